@@ -220,6 +220,7 @@ func (resp *Response) SetBodyStream(bodyStream io.Reader, bodySize int) {
 // but it doesn't reset the bodyStream before.
 func (resp *Response) SetBodyStreamNoReset(bodyStream io.Reader, bodySize int) {
 	resp.bodyStream = bodyStream
+	resp.bodyStreamErr = nil
 	resp.Header.setBodyStreamLength(bodySize)
 }
 
@@ -394,6 +395,7 @@ func (resp *Response) AppendBody(p []byte) {
 // AppendBodyString appends s to response body.
 func (resp *Response) AppendBodyString(s string) {
 	resp.CloseBodyStream() //nolint:errcheck
+	resp.bodyStreamErr = nil
 	if resp.hijackWriter != nil {
 		resp.hijackWriter.Write(bytesconv.S2b(s)) //nolint:errcheck
 		return
